@@ -63,30 +63,30 @@ func init() {
 	monitors["C06"] = func(r *rng, n int, res *MonitorResult) {
 		res.Rule = "taker scenarios (both roles, both chains) with payment outcomes success/fail/pending, faults, foreign and late messages, timeouts, crashes at random effect indices and restarts, run on the real state machines; every coop_close sent is judged against the Lightning payment table at that moment; non-trivial = scenario in which a claim payment was attempted or a key was revealed; distinct = distinct scenarios"
 		seen := map[string]bool{}
-		run := func(role string, steps []string) {
-			w, _, _ := runScenario(defaultCfg(), steps)
+		var all []scn
+		for _, k := range c06Known {
+			all = append(all, scn{k[0], strings.Split(k[1], ";")})
+		}
+		all = append(all, sweepScenarios([]string{"outSender", "inReceiver"})...)
+		for i := 0; i < n; i++ {
+			role := []string{"outSender", "inReceiver"}[r.intn(2)]
+			all = append(all, scn{role, genScenario(r, role, r.intn(3) > 0)})
+		}
+		runMany(defaultCfg(), all, func(x scnResult) {
 			res.Evaluations++
 			nontrivial := false
-			for _, o := range w.obs {
+			for _, o := range x.w.obs {
 				if (o.Kind == "pay" && o.A["kind"] == "claim") || (o.Kind == "send" && o.A["type"] == "coop_close") {
 					nontrivial = true
 				}
 			}
-			k := scenarioKey(steps)
+			k := scenarioKey(x.sc.steps)
 			if nontrivial && !seen[k] {
 				seen[k] = true
 				res.Distinct++
 				res.sample(k)
 			}
-			judgeC06(role, steps, w, res)
-			w.close()
-		}
-		for _, k := range c06Known {
-			run(k[0], strings.Split(k[1], ";"))
-		}
-		for i := 0; i < n; i++ {
-			role := []string{"outSender", "inReceiver"}[r.intn(2)]
-			run(role, genScenario(r, role, r.intn(3) > 0))
-		}
+			judgeC06(x.sc.role, x.sc.steps, x.w, res)
+		})
 	}
 }
